@@ -21,7 +21,7 @@ def dy(rng, lo, hi, step):
 
 class WorldGen:
     def __init__(self, rng, spherical=None, allow=None, max_features=4, with_surfaces=True, with_random=False,
-                 with_cross=None, with_lines=False, schema=None):
+                 with_cross=None, with_lines=False, schema=None, focus=()):
         self.rng = rng
         self.schema = schema
         self._alts = []
@@ -34,6 +34,8 @@ class WorldGen:
         self.with_random = with_random
         self.with_cross = rng.random() < 0.5 if with_cross is None else with_cross
         self.with_lines = with_lines
+        # names of model families to be chosen more often than by default ("tian": water content, "line random": random grains of slabs / faults)
+        self.focus = set(focus)
         self.meta = {"spherical": self.spherical, "features": [], "models": [], "ops": [], "surfaces": 0, "omitted": 0}
         self.radius = 6371000
 
@@ -247,6 +249,15 @@ class WorldGen:
             out.append(m)
         return out
 
+    def tian_keys(self, m):
+        """the keys of `tian water content` other than the range and the compositions; every one optional"""
+        r = self.rng
+        self.maybe(m, "density", r.choice([3000, 3300, 2800.5, 1000]), 0.5)
+        self.maybe(m, "lithology", r.choice(["peridotite", "gabbro", "MORB", "sediment"]), 0.75)
+        self.maybe(m, "initial water content", r.choice([5, 2, 0.5, 11, 0.03125]), 0.5)
+        # 0.25 lies below the floor of 0.5 GPa the code imposes afterwards
+        self.maybe(m, "cutoff pressure", r.choice([10, 26, 16, 1, 0.25, 3.5]), 0.5)
+
     def comp_models(self, kind, corners, c, rad):
         r = self.rng
         out = []
@@ -254,6 +265,8 @@ class WorldGen:
             name = "uniform"
             if kind == "continental plate" and self.with_random and r.random() < 0.4:
                 name = "random"
+            if kind == "oceanic plate" and r.random() < (0.75 if "tian" in self.focus else 0.3):
+                name = "tian water content"
             m = {"model": name}
             self.meta["models"].append(kind + "/C/" + name)
             if kind == "plume":
@@ -267,6 +280,8 @@ class WorldGen:
             if name == "uniform":
                 if r.random() < 0.8 or n != 1:
                     m["fractions"] = [r.choice([1, 0.5, 0.25, 0.75, 0.125, 2]) for _ in comps]
+            elif name == "tian water content":
+                self.tian_keys(m)
             else:
                 m["min value"] = [r.choice([0, 0.25]) for _ in comps]
                 m["max value"] = [r.choice([0.5, 1]) for _ in comps]
@@ -375,6 +390,8 @@ class WorldGen:
             ms = []
             for _ in range(r.choice([1, 1, 2])):
                 name = r.choice(["uniform", "uniform", "smooth"])
+                if not fault and r.random() < (0.7 if "tian" in self.focus else 0.3):
+                    name = "tian water content"
                 m = {"model": name}
                 self.meta["models"].append(kind + "/C/" + name)
                 n = r.choice([1, 2])
@@ -384,6 +401,9 @@ class WorldGen:
                     rng_keys(m)
                     if r.random() < 0.8 or n != 1:
                         m["fractions"] = [r.choice([1, 0.5, 0.25, 0.75]) for _ in comps]
+                elif name == "tian water content":
+                    rng_keys(m)
+                    self.tian_keys(m)
                 else:
                     if fault:
                         self.maybe(m, "min distance fault center", r.choice([0, 5e3]), 0.3)
@@ -404,16 +424,35 @@ class WorldGen:
             self.op(m)
             self.meta["models"].append(kind + "/V/uniform raw")
             out["velocity models"] = [m]
-        if r.random() < 0.3:
-            comps = r.sample(range(0, 3), r.choice([1, 2]))
-            m = {"model": "uniform", "compositions": comps, "grain sizes": [r.choice([-1, 0.5, 0.25]) for _ in comps]}
-            if r.random() < 0.6:
-                m["Euler angles z-x-z"] = [[r.choice([0, 10, 45, 90, 200]), r.choice([0, 20, 60, 90]), r.choice([0, 30, 120])] for _ in comps]
-            else:
-                m["rotation matrices"] = [[[1, 0, 0], [0, 0, -1], [0, 1, 0]] if r.random() < 0.5 else [[0, 1, 0], [-1, 0, 0], [0, 0, 1]] for _ in comps]
-            rng_keys(m)
-            self.meta["models"].append(kind + "/G/uniform")
-            out["grains models"] = [m]
+        if r.random() < (0.7 if "line random" in self.focus else 0.3):
+            ms = []
+            for _ in range(r.choice([1, 1, 2, 3]) if self.with_random else 1):
+                names = ["uniform"]
+                if self.with_random:
+                    names += ["random uniform distribution", "random uniform distribution deflected"] * (3 if "line random" in self.focus else 1)
+                name = r.choice(names)
+                comps = r.sample(range(0, 3), r.choice([1, 2]))
+                m = {"model": name, "compositions": comps, "grain sizes": [r.choice([-1, 0.5, 0.25]) for _ in comps]}
+                if name == "uniform":
+                    if r.random() < 0.6:
+                        m["Euler angles z-x-z"] = [[r.choice([0, 10, 45, 90, 200]), r.choice([0, 20, 60, 90]), r.choice([0, 30, 120])] for _ in comps]
+                    else:
+                        m["rotation matrices"] = [[[1, 0, 0], [0, 0, -1], [0, 1, 0]] if r.random() < 0.5 else [[0, 1, 0], [-1, 0, 0], [0, 0, 1]] for _ in comps]
+                else:
+                    if r.random() < 0.97:
+                        m["normalize grain sizes"] = [r.random() < 0.5 for _ in comps]
+                    elif len(comps) != 1:
+                        m["normalize grain sizes"] = [r.random() < 0.5 for _ in comps]
+                    if name.endswith("deflected"):
+                        m["deflections"] = [r.choice([0, 0.25, 0.5, 1]) for _ in comps]
+                        if r.random() < 0.6:
+                            m["basis Euler angles z-x-z"] = [[r.choice([0, 10, 45]), r.choice([0, 20, 60]), r.choice([0, 30])] for _ in comps]
+                        else:
+                            m["basis rotation matrices"] = [[[1, 0, 0], [0, 1, 0], [0, 0, 1]] if r.random() < 0.5 else [[0, 1, 0], [-1, 0, 0], [0, 0, 1]] for _ in comps]
+                rng_keys(m)
+                self.meta["models"].append(kind + "/G/" + name)
+                ms.append(m)
+            out["grains models"] = ms
         return out
 
     def segments(self, kind, nseg, with_models):
